@@ -512,8 +512,8 @@ def run(ctx):
                         spec = ("multi", (("rm", "d2", "B"), ("lost", tuple(("parity", l) for l in S))))
                     else:
                         spec = ("multi", (("rm", "d2", "B"),) + tuple((how, l) for l in S))
-                    jobs.append((cfg, saved, spec, (), ctx.seed, {}))
-        for job, r in par.pmap(damage_job, jobs, deadline=ctx.deadline):
+                    jobs.append((cfg, saved, spec, (), ctx.seed, {}, len(S)))
+        for job, r in par.pmap(nohash_job, jobs, deadline=ctx.deadline):
             evals += 1
             spec = job[2]
             ctx.outcome(("no-hash", r["rc"]))
@@ -528,6 +528,25 @@ def run(ctx):
     ctx.set("traces_validated_against_impl", tot_trans + evals)
     ctx.assumptions += ["damage is restricted to what the statement calls detectable: blocks without a recorded hash are only removed/truncated, never silently altered",
                         "a file that is visibly newer/different in size or time than its record and that fix does not touch is not 'damage'"]
+
+
+def nohash_job(j):
+    """damage_job plus: with at least two intact parity levels left (one to rebuild from, one to cross-check) the hash-less file must
+    come back exactly - an honest 'unrecoverable' is not enough there"""
+    cfg, saved, spec, flt, seed, ip, nbad = j
+    r = damage_job((cfg, saved, spec, flt, seed, ip))
+    if nbad <= cfg.levels - 2:
+        L = X.worker_lab(cfg, seed)
+        want = X.file_bytes(L, "B", 1900, 0)
+        try:
+            got = L.read("d2", "B")
+        except OSError:
+            got = None
+        if got != want:
+            r["viols"] = list(r["viols"]) + [dict(kind="hashless-file-within-the-parity-count-not-recovered", bad_parities=nbad,
+                                                  present=got is not None, rc=r["rc"])]
+            r["sig"] = list(r["sig"] or []) + ["C05/no-hash/not-recovered-within-parity-count"]
+    return r
 
 
 def collect_all(ctx, ex, on_violation):
@@ -595,6 +614,13 @@ def replay(r):
             res = run_fix(L, r["filter"])
             print(res.text()[-800:])
             v = fix_oracle(L, c, res, before, tuple(r["filter"]), "replay", exempt)
+            if r.get("violation", {}).get("kind") == "hashless-file-within-the-parity-count-not-recovered":
+                try:
+                    ok = L.read("d2", "B") == X.file_bytes(L, "B", 1900, 0)
+                except OSError:
+                    ok = False
+                if not ok:
+                    v = list(v) + [dict(kind="hashless-file-within-the-parity-count-not-recovered")]
         for x in v:
             print("  ", x)
         return not v
